@@ -810,6 +810,38 @@ def ctor_verbatim_obligations(ctx: Any, R: str) -> List[Ob]:
     return obs
 
 
+def frame_locals_obligations(ctx: Any, R: str) -> List[Ob]:
+    """What the record reader is handed is what the frame reader took off the wire: in the section reader every local that
+    carries a fixed field of the frame (type, class, TTL, rdata length) is assigned once, from the wire, and is not rewritten
+    on its way to the record reader (a floor, a mask or a default applied here changes EVERY decoded record of that kind --
+    also the known answers of a query -- not only the ones a later stage meant to protect itself from)."""
+    prog = ctx.prog
+    obs: List[Ob] = []
+    f = prog.func(INC + '._read_others')
+    m = f.module
+    lp = next((n for n in walk_local_ordered(f.node) if isinstance(n, ast.For)), None)
+    if lp is None:
+        raise AnalysisError('anchor vanished: the record loop of _read_others')
+    wire_locals = {}
+    for st in ast.walk(lp):
+        if isinstance(st, ast.Assign) and isinstance(st.targets[0], ast.Name) and be_pattern(prog, m, st.value) is not None:
+            wire_locals.setdefault(st.targets[0].id, []).append(st)
+    calls = [c for c in ast.walk(lp) if isinstance(c, ast.Call) and call_name(c) == '_read_record']
+    if not wire_locals or not calls:
+        raise AnalysisError('anchor vanished: fixed-field reads / record reader call in _read_others')
+    handed = {a.id for c in calls for a in c.args if isinstance(a, ast.Name)}
+    for nm in sorted(handed & set(wire_locals)):
+        all_defs = [st for st in ast.walk(lp) if (isinstance(st, ast.Assign) and any(isinstance(t, ast.Name) and t.id == nm for t in st.targets)) or (isinstance(st, ast.AugAssign) and isinstance(st.target, ast.Name) and st.target.id == nm)]
+        extra = [st for st in all_defs if st not in wire_locals[nm]]
+        obs.append(ob(R, f, extra[0] if extra else wire_locals[nm][0], f'`{nm}` reaches the record reader exactly as it was read from the wire', not extra and len(wire_locals[nm]) == 1, f'`{nm}` is rewritten at line {extra[0].lineno} before the record is built' if extra else ''))
+    # ... and the record reader hands its parameters to the constructors as it got them
+    rr = prog.func(INC + '._read_record')
+    for nm in rr.params[1:]:
+        rew = [st for st in walk_local_ordered(rr.node) if (isinstance(st, ast.Assign) and any(isinstance(t, ast.Name) and t.id == nm for t in st.targets)) or (isinstance(st, ast.AugAssign) and isinstance(st.target, ast.Name) and st.target.id == nm) or (isinstance(st, ast.NamedExpr) and st.target.id == nm)]
+        obs.append(ob(R, rr, rew[0] if rew else f'{nm} (parameter of _read_record)', f'the record reader does not rewrite `{nm}` before it builds the record', not rew, f'`{nm}` is reassigned at line {rew[0].lineno}' if rew else ''))
+    return obs
+
+
 def nsec_reader_obligation(ctx: Any, R: str) -> Ob:
     """Reader of the NSEC type bitmap: bit b (MSB first) of octet i of window w is type b + 256 w + 8 i."""
     prog = ctx.prog
